@@ -144,7 +144,9 @@ def ase_agrees(path, a):
     return "yes"
 
 
-def do_roundtrip(c, td):
+def do_roundtrip(c, td, intcell=False):
+    """intcell: the cell is handed over as an integer array (what the constructor stores for `cell=[[8,0,0],...]`);
+    only for orthorhombic cells with whole-number lengths"""
     from mofun import Atoms
     K = c["K"]
     cell = cell_matrix(c["cellpar"])
@@ -154,7 +156,7 @@ def do_roundtrip(c, td):
     try:
         with contextlib.redirect_stderr(io.StringIO()), contextlib.redirect_stdout(io.StringIO()):
             a = render(dict(K, cell=[]), Rendering("id", 1.0))
-            a.cell = cell
+            a.cell = np.array(np.rint(cell), dtype=int) if intcell else cell
             a.positions = (np.array(K["pos"], dtype=float) / 80.0) @ cell
             if c["out"] == "cart":
                 with open(path, "w") as fh:
@@ -247,6 +249,8 @@ def _chunk(task):
     with tempfile.TemporaryDirectory(dir=BUILD) as td:
         for ci, c in cases:
             out.append((ci, do_roundtrip(c, td) if c["kind"] == "roundtrip" else do_read(c, td)))
+            if c["kind"] == "roundtrip" and c["cellpar"][3:] == [900000] * 3 and all(x % 10000 == 0 for x in c["cellpar"][:3]):
+                out.append((ci, do_roundtrip(c, td, intcell=True)))
     return out
 
 
